@@ -13,27 +13,32 @@ CFG = {
         # adding a dynamic part leaves the static parts alone (one-hole contexts)
         "Leptos.Macro.C18_static_parts_stable",
         "Leptos.Macro.C18_static_parts_stable_block",
-        # the four finding classes lie outside the hypothesis of the theorems above
+        # the remaining finding class lies outside the hypothesis of the theorems above
         "Leptos.Macro.C18_classes_excluded",
+        # raw-text elements with one string child (formerly the OPEN statement)
+        "Leptos.Macro.C18_rawtext_single",
+        "Leptos.Macro.raw_parse",
         # the forced-dynamic twin
         "Leptos.Macro.C18_twin_same_view",
         "Leptos.Macro.C18_twin_same_view_kids",
         "Leptos.Macro.C18_twin_same_meaning",
         "Leptos.Macro.C18_twin_same_meaning_kids",
-        # refutations of the full statements (kernel-evaluated witnesses, replayed on the real macro: corpus/C18)
-        "Leptos.Macro.C18_noscript_inert_witness",
+        # refutation of the full statements (kernel-evaluated witness, replayed on the real macro: corpus/C18)
         "Leptos.Macro.C18_rawtext_marker_witness",
-        "Leptos.Macro.C18_class_unicode_ws_witness",
-        "Leptos.Macro.C18_empty_text_witness",
         "Leptos.Macro.C18_paths_agree_full_false",
         "Leptos.Macro.C18_macro_denotes_full_false",
+        # regression witnesses: the compile-time printer before fix-c18-1, -3, -4 (inertHtmlOld / macroHtmlOld)
+        "Leptos.Macro.C18_noscript_inert_regression",
+        "Leptos.Macro.C18_class_unicode_ws_regression",
+        "Leptos.Macro.C18_empty_text_regression",
+        "Leptos.Macro.C18_paths_agree_old_false",
         # the macro's hard-coded lists against the runtime table, regenerated from the source on every run
         "Leptos.Macro.C18_table_lists",
         "Leptos.Macro.C18_table_void",
         "Leptos.Macro.C18_table_void_full_false",
         "Leptos.Macro.C18_table_void_partial",
-        "Leptos.Macro.C18_table_noescape_full_false",
-        "Leptos.Macro.C18_table_noescape_partial",
+        "Leptos.Macro.C18_table_noescape",
+        "Leptos.Macro.C18_table_noescape_old_false",
         # the lemmas the theorems rest on
         "Leptos.Macro.inert_html",
         "Leptos.Macro.inert_struct",
@@ -45,9 +50,10 @@ CFG = {
         "Leptos.Macro.normAttrs_builder",
         "Leptos.Macro.normAttrs_inert",
         "Leptos.Macro.attrsHtml_inert",
-        "Leptos.Macro.tok_trim",
+        "Leptos.Macro.macroEscapes_eq",
+        "Leptos.Macro.structure_preserved",
         "Leptos.Macro.seen_ok",
-        "Leptos.Html.C06_structure_preserved",
+        "Leptos.Html.run_kids",
     ],
     "harness_pkg": "hx-c18",
     "harness_bin": "c18",
@@ -56,7 +62,7 @@ CFG = {
             "build.rs): every attribute form alone and in pairs on an inner element, every tag of the family (10 block, 8 inline, "
             "p/h1-h3, a/button, 5 void, 2 custom, svg/g/circle/rect/path, textarea/script/style/noscript/title) as an inner static "
             "element, roots that are text / several nodes / fragments / the component <Wrap>, the shapes of the four finding "
-            "classes, then pseudo-random templates of depth <= 3 (0-3 attributes of 8 forms per element, quoted and unquoted text, "
+            "classes (three of them repaired: regression shapes), then pseudo-random templates of depth <= 3 (0-3 attributes of 8 forms per element, quoted and unquoted text, "
             "{blocks}, fragments, components; 3/5 of the subtrees fully static so that the inert path is taken). Each shape in three "
             "variants: as written, forced-dynamic twin (every literal a {..} with the same value), one extra dynamic sibling inside "
             "a seed-independent element. The seed chooses the values of all dynamic holes (hostile alphabet < > & \" ' = ` <!-- --> "
@@ -89,10 +95,11 @@ CFG = {
                 "of the macro-time (inert) printer and of the expansion the macro really produces each parse, after normalisation "
                 "(markers, adjacent text, attribute order, class tokens, style declarations), to the document the template denotes; the "
                 "two paths agree on every inert element; the rendering of a template with a hole is the context's denotation around "
-                "the hole's, whether the hole is static or a dynamic block. Four refutations of the unrestricted statements with "
-                "kernel-checked witnesses replayed on the real macro (noscript escaped at macro time only; <!> marker inside "
-                "title/textarea/script/style; class trimmed with Unicode white space at run time only; empty text vs one space). Table "
-                "theorems over the regenerated element lists. Tied to the code by compiling 240 template shapes x 3 variants with the real "
+                "the hole's, whether the hole is static or a dynamic block; empty strings and any white space included. One refutation "
+                "of the unrestricted statements with a kernel-checked witness replayed on the real macro (<!> marker inside "
+                "title/textarea/script/style); three defects repaired in /repo (fix-c18-1 noscript escaped at macro time only, fix-c18-3 "
+                "class trimmed at run time only, fix-c18-4 empty text vs one space), the pre-repair printer kept as inertHtmlOld with "
+                "regression witnesses. Table theorems over the regenerated element lists (macro no-escape list = runtime table). Tied to the code by compiling 240 template shapes x 3 variants with the real "
                 "macro and comparing the rendered bytes with the compiled model, plus an independent tree oracle.",
         "design_ref": "DESIGN.md §7 C18",
         "note": "model hand-written, faithfulness checked by correspondence on the compiled expansions; the parser subset is C06's",
